@@ -262,3 +262,23 @@ def just_spec(rng):
             rules.append({'pat': [rng.randrange(len(spec['classes'])), lbc], 'acts': [[('attr', 'AdvX', ('const', rng.randrange(0, 900)))], []], 'cons': [None, None], 'ret': 0})
         spec['passes'].append({'type': 'just', 'pre': 0, 'maxloop': 3, 'rules': rules})
     return spec
+
+
+def stateful_spec(rng):
+    """Fonts whose rules write state that must stay inside one segment (C08): SET_FEAT, user attributes tested by later
+    passes, pass-skipping bits (attrSkipPasses) on glyphs."""
+    spec = gen_spec(rng, set("assoc,cons,pre,delete,insert,attach,rtl,lookup,feat".split(',')))
+    ncls = len(spec['classes'])
+    # a first pass that sets feature 0/1 from the glyph stream; later constraints (gen_spec 'feat') read them back
+    rules = []
+    for _ in range(rng.randrange(1, 4)):
+        c = rng.randrange(ncls)
+        rules.append({'pre': 0, 'pat': [c], 'acts': [[('setfeat', rng.randrange(2), ('const', rng.randrange(0, 4))), ('user', rng.randrange(2), ('const', rng.randrange(1, 4)))]],
+                      'cons': [None], 'ret': 0})
+    spec['passes'].insert(0, {'type': 'sub', 'pre': 0, 'maxloop': 3, 'rules': rules})
+    if rng.random() < 0.6:
+        # pass-skipping bits: glyph attribute 6 holds a bit per pass; a segment whose glyphs all clear bit i skips pass i
+        spec.setdefault('attr_ids', {})['passbits'] = 6
+        for g in spec['glyphs']:
+            g['attrs'][6] = rng.choice([0xFFFF, 0xFFFF, 1, 2, 3, 5, 0])
+    return spec
